@@ -144,4 +144,39 @@ def retisSwapZeroDetV (step : Cfg → Cfg) (opf : Cfg → Int) (vf : Cfg → Opt
       (detScriptV step opf vf false n (startCfg last0 false)) xi
   | _, _ => retisSwapZero e0 e1 old0 old1 ⟨none, []⟩ ⟨none, []⟩ xi
 
+/-! ### 5. the in-process engines (ASE, TurtleMD): how many frames they offer per `propagate` call
+
+The zero swaps recognise a piece that was cut at the length limit only by `length == maxlen`
+(`status0`/`status1`, `qstatus0`/`qstatus1`).  That is sound only if an MD program that is never told to stop
+really offers `path.maxlen` frames.  The in-process engines decide this themselves:
+  ase_engine.py:171       `for i in range(self.subcycles * path.maxlen): … if i % self.subcycles == 0: <offer a frame>`
+  turtlemdengine.py:220   `steps = path.maxlen * self.subcycles`, `run()` yields the initial system plus one per step
+                          (`subcycles * maxlen + 1` iterations), a frame offered when `i % self.subcycles == 0`. -/
+
+/-- the loop indices at which a frame is offered: `[i for i in range(n) if i % sub == 0]` -/
+def offeredAt (sub n : Nat) : List Nat := (List.range n).filter (fun i => i % sub == 0)
+
+/-- number of frames an in-process engine offers to `add_to_path` for a path of `maxlen` if nothing stops it -/
+def inprocOffered (sub maxlen : Nat) (ase : Bool) : Nat :=
+  (offeredAt sub (if ase then sub * maxlen else sub * maxlen + 1)).length
+
+/-- … of which the first is the initial configuration: the length of the `Script` the engine answers with -/
+def inprocSteps (sub maxlen : Nat) (ase : Bool) : Nat := inprocOffered sub maxlen ase - 1
+
+/-- what an in-process engine leaves in an EMPTY path of `maxlen` when no frame is outside the interfaces:
+    (number of frames, success); `none` = IndexError (`maxlen = 0`) -/
+def inprocFill (sub maxlen : Nat) (ase : Bool) : Option (Nat × Bool) :=
+  let sys : Frame := { op := 0, cfg := ⟨0, 0⟩, vr := false, vpot := none }
+  let scr : Script := { v0 := none, rest := List.replicate (inprocSteps sub maxlen ase) { op := 0, cfg := ⟨0, 0⟩, vpot := none } }
+  match propagate maxlen (-1) 1 sys false scr with
+  | none => none
+  | some (fr, s) => some (fr.length, s)
+
+/-- `retis_swap_zero` between two in-process engines of one deterministic dynamics (one `step` = `subcycles`
+    integrator steps, order parameter of the physical phase point): both `propagate` calls fill a path of
+    `maxlen1 - 1`, so both scripts have `inprocSteps sub (maxlen1 - 1) ase` frames -/
+def retisSwapZeroInproc (step : Cfg → Cfg) (opf : Cfg → Int) (vf : Cfg → Option Int) (sub : Nat) (ase : Bool)
+    (e0 e1 : Ens) (old0 old1 : List Frame) (xi : Rat) : Except Err Result :=
+  retisSwapZeroDetV step opf vf (inprocSteps sub (e1.maxlen - 1) ase) e0 e1 old0 old1 xi
+
 end Infretis.ZeroSwap
